@@ -980,15 +980,53 @@ func (s *Sim) checkDeadlock() {
 
 var timeType = reflect.TypeOf(time.Time{})
 
+// SelCase is one communication clause of a rewritten select statement.
+type SelCase struct {
+	Chan interface{}
+	Send bool
+	Val  interface{}
+}
+
+func RecvCase(c interface{}) SelCase             { return SelCase{Chan: c} }
+func SendCase(c interface{}, v interface{}) SelCase { return SelCase{Chan: c, Send: true, Val: v} }
+
 // Select polls the channels in a seeded priority order; if none is ready and
 // there is no default it blocks on all of them. Returns the case index
 // (-1 = default), the received value and ok.
 func Select(hasDefault bool, chans ...interface{}) (int, reflect.Value, bool) {
-	s := Cur()
-	n := len(chans)
-	vals := make([]reflect.Value, n)
+	cs := make([]SelCase, len(chans))
 	for i, c := range chans {
-		vals[i] = reflect.ValueOf(c)
+		cs[i] = SelCase{Chan: c}
+	}
+	return SelectX(hasDefault, cs...)
+}
+
+// SelectX is Select for clauses that may also send.
+func SelectX(hasDefault bool, sel ...SelCase) (int, reflect.Value, bool) {
+	s := Cur()
+	n := len(sel)
+	vals := make([]reflect.Value, n)
+	for i, c := range sel {
+		vals[i] = reflect.ValueOf(c.Chan)
+	}
+	usable := func(i int) bool { return vals[i].IsValid() && !vals[i].IsNil() }
+	// the reflect case for clause i (send values are converted to the element type)
+	mk := func(i int) reflect.SelectCase {
+		if !sel[i].Send {
+			return reflect.SelectCase{Dir: reflect.SelectRecv, Chan: vals[i]}
+		}
+		et := vals[i].Type().Elem()
+		v := reflect.ValueOf(sel[i].Val)
+		if !v.IsValid() {
+			v = reflect.Zero(et)
+		} else if !v.Type().AssignableTo(et) {
+			v = v.Convert(et)
+		}
+		return reflect.SelectCase{Dir: reflect.SelectSend, Chan: vals[i], Send: v}
+	}
+	try := func(i int) (reflect.Value, bool, bool) {
+		chosen, v, ok := reflect.Select([]reflect.SelectCase{mk(i), {Dir: reflect.SelectDefault}})
+		return v, ok, chosen == 0
 	}
 	order := make([]int, n)
 	rot := 0
@@ -1008,27 +1046,29 @@ func Select(hasDefault bool, chans ...interface{}) (int, reflect.Value, bool) {
 	// an idle poll (default case) or a blocking wait is not.
 	anyReady := false
 	for _, i := range order {
-		if vals[i].IsValid() && !vals[i].IsNil() && vals[i].Len() > 0 {
+		if !usable(i) {
+			continue
+		}
+		if !sel[i].Send && vals[i].Len() > 0 {
+			anyReady = true
+		}
+		if sel[i].Send && vals[i].Cap() > 0 && vals[i].Len() < vals[i].Cap() {
 			anyReady = true
 		}
 	}
 	if !anyReady {
-		// closed channels and unbuffered channels with a waiting sender are not
-		// visible through Len; probe them without consuming when possible
+		// closed channels and unbuffered channels with a waiting partner are not
+		// visible through Len; probe them (this performs the operation when possible)
 		for _, i := range order {
-			if !vals[i].IsValid() || vals[i].IsNil() {
+			if !usable(i) {
 				continue
 			}
-			if vals[i].Cap() == 0 || true {
-				cases := []reflect.SelectCase{{Dir: reflect.SelectRecv, Chan: vals[i]}, {Dir: reflect.SelectDefault}}
-				chosen, v, ok := reflect.Select(cases)
-				if chosen == 0 {
-					// consumed: hand control back to the scheduler, then deliver
-					if s != nil {
-						Yield("select.got")
-					}
-					return i, v, ok
+			if v, ok, done := try(i); done {
+				// done: hand control back to the scheduler, then deliver
+				if s != nil {
+					Yield("select.got")
 				}
+				return i, v, ok
 			}
 		}
 		if hasDefault {
@@ -1039,12 +1079,10 @@ func Select(hasDefault bool, chans ...interface{}) (int, reflect.Value, bool) {
 			Yield("select")
 		}
 		for _, i := range order {
-			if !vals[i].IsValid() || vals[i].IsNil() {
+			if !usable(i) {
 				continue
 			}
-			cases := []reflect.SelectCase{{Dir: reflect.SelectRecv, Chan: vals[i]}, {Dir: reflect.SelectDefault}}
-			chosen, v, ok := reflect.Select(cases)
-			if chosen == 0 {
+			if v, ok, done := try(i); done {
 				return i, v, ok
 			}
 		}
@@ -1055,10 +1093,10 @@ func Select(hasDefault bool, chans ...interface{}) (int, reflect.Value, bool) {
 	cases := make([]reflect.SelectCase, 0, n)
 	idx := make([]int, 0, n)
 	for i := 0; i < n; i++ {
-		if !vals[i].IsValid() || vals[i].IsNil() {
+		if !usable(i) {
 			continue
 		}
-		cases = append(cases, reflect.SelectCase{Dir: reflect.SelectRecv, Chan: vals[i]})
+		cases = append(cases, mk(i))
 		idx = append(idx, i)
 	}
 	if len(cases) == 0 {
@@ -1073,18 +1111,16 @@ func Select(hasDefault bool, chans ...interface{}) (int, reflect.Value, bool) {
 	// We were woken by the runtime, not by the scheduler: hand control back
 	// before touching anything, then resolve same-instant ties by priority.
 	Yield("select.wake")
-	droppable := !ok || vals[got].Type().Elem() == timeType
+	droppable := !sel[got].Send && (!ok || vals[got].Type().Elem() == timeType)
 	if droppable {
 		for _, i := range order {
 			if i == got {
 				break
 			}
-			if !vals[i].IsValid() || vals[i].IsNil() {
+			if !usable(i) {
 				continue
 			}
-			c2 := []reflect.SelectCase{{Dir: reflect.SelectRecv, Chan: vals[i]}, {Dir: reflect.SelectDefault}}
-			ch, v2, ok2 := reflect.Select(c2)
-			if ch == 0 {
+			if v2, ok2, done := try(i); done {
 				return i, v2, ok2
 			}
 		}
